@@ -33,18 +33,20 @@ class Universe:
     nodes: 'node'; links: 'link'; origins: ('origin', kind); destinations: ('dest', kind);
     anything else: ('raw', object) for type-confusion tokens."""
 
-    def __init__(self, spec: dict):
+    def __init__(self, spec: dict, namer=None):
+        """namer: optional label -> element name (default: the label).  Distinct objects may share a name."""
         self.obj = {}
         self.kind = {}
+        nm = namer or (lambda lab: lab)
         for lab, what in spec.items():
             if what == "node":
-                o = M.Node(name=lab)
+                o = M.Node(name=nm(lab))
             elif what == "link":
-                o = mk_link(lab)
+                o = mk_link(nm(lab))
             elif what[0] == "origin":
-                o = ORIGIN_KINDS[what[1]](lab)
+                o = ORIGIN_KINDS[what[1]](nm(lab))
             elif what[0] == "dest":
-                o = DEST_KINDS[what[1]](lab)
+                o = DEST_KINDS[what[1]](nm(lab))
             elif what[0] == "raw":
                 o = what[1]
             else:
@@ -199,20 +201,23 @@ def apply_real(net, op, U: Universe):
     o = U.obj
     try:
         k = op[0]
+        # bulk arguments are documented as Iterable: a trailing "gen" marker passes them as one-shot generators
+        gen = op[-1] == "gen"
+        wrap = (lambda lst: (x for x in lst)) if gen else (lambda lst: lst)
         if k == "add_node":
             r = net.add_node(o[op[1]])
         elif k == "add_nodes":
-            r = net.add_nodes([o[x] for x in op[1]])
+            r = net.add_nodes(wrap([o[x] for x in op[1]]))
         elif k == "add_link":
             r = net.add_link(o[op[1]], o[op[2]], o[op[3]])
         elif k == "add_links":
-            r = net.add_links([(o[u], o[l], o[v]) for u, l, v in op[1]])
+            r = net.add_links(wrap([(o[u], o[l], o[v]) for u, l, v in op[1]]))
         elif k == "add_origin":
             r = net.add_origin(o[op[1]], o[op[2]])
         elif k == "add_destination":
             r = net.add_destination(o[op[1]], o[op[2]])
         elif k == "add_path":
-            r = net.add_path(tuple(o[x] for x in op[1]),
+            r = net.add_path(wrap(tuple(o[x] for x in op[1])),
                              None if op[2] is None else o[op[2]],
                              None if op[3] is None else o[op[3]])
         else:
